@@ -120,6 +120,9 @@ def gen_new(w, r, kinds=None):
             owners = [l for l in m.by_kind(kind) if m.kids(l, f)]
             if owners:
                 op["kids_from"] = {f: pick(r, owners)}
+                lz = r.choice([None, None, "iter", "gen"])
+                if lz:
+                    op["kids_from_lazy"] = lz
                 kids = {}
         if kids:
             op["kids"] = kids
